@@ -857,7 +857,11 @@ def arr_reshape(I, recv, args, kwargs):
 
 @lib("numpy.column_stack")
 def np_column_stack(I, args, kwargs):
-    parts = [to_arr(I, p) for p in I.iter_concrete(args[0])]
+    items = I.iter_concrete(args[0])
+    if any(isinstance(p, Opaque) for p in items):
+        o = Opaque("column_stack", prov=("column_stack", list(items)))
+        return o
+    parts = [to_arr(I, p) for p in items]
     return hstack2(I, parts)
 
 
